@@ -2,8 +2,17 @@
 (* Trace validation for C16: every recorded Sync call returns First(stream) and leaves the reader on it *)
 EXTENDS TraceBase
 S == INSTANCE Sync WITH Stream <- <<>>, pos <- 0, off <- 0, pc <- "", res <- ""
+\* IsSynced (the test Sync applies at each candidate position): true exactly for a plausible header at
+\* the reader's position; fewer than four bytes cannot be judged (an error); the reader is not advanced
+IsSyncedVerdict(e) ==
+  IF Len(e.stream) < 4 THEN (IF e.err = "nil" THEN "issynced-no-error-on-short-stream" ELSE "")
+  ELSE IF e.err # "nil" THEN "issynced-error"
+  ELSE IF e.ok # S!Plausible(e.stream, 0) THEN "issynced-result"
+  ELSE IF e.rest # e.stream THEN "issynced-consumed-input"
+  ELSE ""
 Verdict(e) ==
   IF e.panic # "" THEN "panic"
+  ELSE IF e.op = "issynced" THEN IsSyncedVerdict(e)
   ELSE IF S!Found(e.stream) THEN
        IF e.err # "nil" THEN "error-though-header-present"
        ELSE IF e.off # S!First(e.stream) THEN "offset"
